@@ -57,6 +57,8 @@ def gen_string_piece(rng, is_bytes):
                      '\\d+\\.\\d*', 'a\\ b', '\\w', '\\400', 'C:\\path\\q', '\\%s',
                      # characters that end a line for str.splitlines but not for Python: part of the string
                      'form\x0cfeed', 'v\x0bt', 'ls\u2028ps\u2029', 'nel\x85', 'fs\x1cgs\x1drs\x1e'])
+  if is_bytes and not body.isascii():
+    body = 'form\x0cfeed'       # a bytes literal holds ASCII only
   quote = rng.choice(["'", '"', "'''", '"""'])
   if quote[0] in body and '\\' + quote[0] not in body:
     body = body.replace(quote[0], '')
